@@ -196,6 +196,64 @@ def u_ratio(ctx):
     ctx.lemma_nra("C13/ratio_lemma", z3.Implies(z3.And(c > 0, Y != 0), (c * X) / (c * Y) == X / Y))
 
 
+@unit(P, "weight_scale.NormalisedCounts", fuc=["yaw.correlation.paircounts:NormalisedCounts.sample_patch_sum", "yaw.correlation.paircounts:NormalisedCounts.get_array"],
+      cases=[dict(which="sample_patch_sum"), dict(which="get_array")], trusted=["ratio_lemma instances"])
+def u_scale_norm(ctx, which):
+    """relational, on the real division step: if the counts and the product of the sums of weights carry the same factor c > 0
+    (any c, however small or large), the normalised counts - value, every jackknife sample, every cell - are unchanged wherever
+    the weight product is not zero (two runs of the real function)"""
+    PC = mod("yaw.correlation.paircounts")
+    binning, nb = CC.make_binning(ctx)
+    N = ctx.fresh_int("num_patches", lo=1, size=True)
+    c = ctx.fresh_real("c")
+    ctx.assume(c.t > 0, "pre:positive factor")
+    X, Xs = SArr.fresh(ctx, "sum_counts", (nb,), "f"), SArr.fresh(ctx, "sample_counts", (N, nb), "f")
+    Y, Ys = SArr.fresh(ctx, "sum_w", (nb,), "f"), SArr.fresh(ctx, "sample_w", (N, nb), "f")
+    cells = SArr.fresh(ctx, "cells", (nb, N, N), "f")
+
+    def scaled(a, f):
+        e = a._elem
+        return SArr(a.shape, lambda *i: f * e(*i), "f")
+
+    class Part:
+        def __init__(self, f, data, samples):
+            self.f, self.d, self.s = f, data, samples
+            self.binning = binning
+
+        def sample_patch_sum(self):
+            sd = CC.make_sampled(ctx, binning, nb, N)
+            sd.data, sd.samples = (self.d if self.f is None else scaled(self.d, self.f)), (self.s if self.f is None else scaled(self.s, self.f))
+            return sd
+
+        def get_array(self):
+            return cells if self.f is None else scaled(cells, self.f)
+
+    def norm(f):
+        n = PC.NormalisedCounts.__new__(PC.NormalisedCounts)
+        n.counts, n.sum_weights = Part(f, X, Xs), Part(f, Y, Ys)
+        return n
+    name = f"C13/weight_scale/NormalisedCounts.{which}"
+    ctx.canary()
+    fn = getattr(PC.NormalisedCounts, which)
+    r1 = expect_no_exception(ctx, call(fn, norm(None)), name)
+    r2 = expect_no_exception(ctx, call(fn, norm(c.t)), name)
+    b, k, i, j = (ctx.fresh_int(v, lo=0) for v in "bkij")
+    ctx.assume(z3.And(b.t < nb.t, k.t < N.t, i.t < N.t, j.t < N.t), "post:arbitrary bin, sample and cell")
+
+    def ratio(x, y):
+        ctx.assume(z3.Implies(y != 0, (c.t * x) / (c.t * y) == x / y), "lemma:ratio_lemma instance")
+    if which == "sample_patch_sum":
+        ratio(X._elem(b.t), Y._elem(b.t))
+        ratio(Xs._elem(k.t, b.t), Ys._elem(k.t, b.t))
+        ctx.check(f"{name}/post:value_unchanged", SBool(z3.Implies(Y._elem(b.t) != 0, r2.data._elem(b.t) == r1.data._elem(b.t))))
+        ctx.check(f"{name}/post:value_is_the_ratio", SBool(z3.Implies(Y._elem(b.t) != 0, r1.data._elem(b.t) == X._elem(b.t) / Y._elem(b.t))))
+        ctx.check(f"{name}/post:every_jackknife_sample_unchanged", SBool(z3.Implies(Ys._elem(k.t, b.t) != 0, r2.samples._elem(k.t, b.t) == r1.samples._elem(k.t, b.t))))
+    else:
+        ratio(cells._elem(b.t, i.t, j.t), Y._elem(b.t))
+        ctx.check(f"{name}/post:cell_unchanged", SBool(z3.Implies(Y._elem(b.t) != 0, r2._elem(b.t, i.t, j.t) == r1._elem(b.t, i.t, j.t))))
+        ctx.check(f"{name}/post:cell_is_the_ratio", SBool(z3.Implies(Y._elem(b.t) != 0, r1._elem(b.t, i.t, j.t) == cells._elem(b.t, i.t, j.t) / Y._elem(b.t))))
+
+
 # additivity of the containers: the C17 unit on the real __add__ (cell-wise sum, same weights required)
 unit(P, "additivity.PatchedCounts.__add__", fuc=["yaw.correlation.paircounts:PatchedCounts.__add__"],
      cases=[dict(ca=a, cb=b) for a in ("left", "right") for b in ("left", "right")])(_C17.u_pc_add)
